@@ -93,7 +93,8 @@ def lib():
 
     defvjp(s, lambda ans, a: lambda g: g * 6 * a)
     ck = autograd.checkpoint(lambda x: anp.sin(x) * x)   # created once: making a primitive registers it (by design)
-    _L.update(onp=onp, anp=anp, autograd=autograd, p=p, r=r, rf=rf, s=s, ck=ck)
+    from autograd.misc.flatten import flatten as _flatten
+    _L.update(onp=onp, anp=anp, autograd=autograd, p=p, r=r, rf=rf, s=s, ck=ck, flatten=_flatten)
     return _L
 
 
@@ -150,11 +151,36 @@ def _lib_events():
         "bad_shape_forward": lambda: ag.grad(lambda x: np.sum(np.dot(x, onp.ones(4))))(onp.ones(3)),
         "int_argument": lambda: ag.grad(lambda x: x * 2.0)(3),
         "fwd_inv_singular": lambda: ag.make_jvp(lambda A: np.linalg.inv(A))(onp.zeros((2, 2)))(onp.ones((2, 2)))[1],
+        "flatten_unflattenable_leaf": lambda: Lb["flatten"]({"w": onp.array([1.0, 2.0]), "b": None, "z": 5.0}),
+        "flatten_func_bad_then_good": lambda: _flatten_seq(Lb),
+        "det_singular_twice": lambda: _det_singular_twice(Lb),
     }
 
 
+def _flatten_seq(Lb):
+    try:
+        Lb["flatten"]((1.0, [object()], 2.0))
+    except Exception:
+        pass
+    v, un = Lb["flatten"]((1.0, [2.0, Lb["onp"].array([3.0, 4.0])]))
+    return ("PAIR", v, Lb["onp"].array([1.0, 2.0, 3.0, 4.0]))
+
+
+def _det_singular_twice(Lb):
+    ag, np, onp = Lb["autograd"], Lb["anp"], Lb["onp"]
+    S = onp.array([[1.0, 2.0], [2.0, 4.0]])
+    out = []
+    for _ in range(2):
+        try:
+            out.append(ag.grad(lambda A: np.linalg.slogdet(A)[1])(S))
+        except Exception as e:
+            out.append("EXC:" + type(e).__name__)
+    return ("PAIR", repr(out[0]) if isinstance(out[0], str) else out[0], repr(out[1]) if isinstance(out[1], str) else out[1])
+
+
 LIB_EVENTS = ["eigh_degenerate", "eigh_degenerate3", "inv_singular", "cholesky_not_pd", "f32_shapes", "f16_c64_shapes", "errstate_raise",
-              "sqrt_at_zero", "bad_shape_forward", "int_argument", "fwd_inv_singular"]
+              "sqrt_at_zero", "bad_shape_forward", "int_argument", "fwd_inv_singular", "flatten_unflattenable_leaf", "flatten_func_bad_then_good",
+              "det_singular_twice"]
 
 
 def run_event(ev):
@@ -217,7 +243,10 @@ def run_event(ev):
                 ARM["spec"] = ("rule", 9, ev[1])
                 return repr(float(STORE["hvp"](1.0)))
             if kind == "lib":
-                return "VAL:" + repr(plain(_lib_events()[ev[1]]()))[:300]
+                r = _lib_events()[ev[1]]()
+                if isinstance(r, tuple) and len(r) == 3 and r[0] == "PAIR":       # (got, independently obtained expectation)
+                    return ("VAL:" if plain(r[1]) == plain(r[2]) else "MISMATCH:") + repr((plain(r[1]), plain(r[2])))[:300]
+                return "VAL:" + repr(plain(r))[:300]
             if kind == "rule_reenter":
                 f = lambda x: Lb["r"](x) * x
                 return repr(float(ag.grad(f)(1.1) if ev[1] == 1 else ag.grad(ag.grad(f))(1.1)))
@@ -287,7 +316,7 @@ def obs_matches_expected(ev, obs):
     if isinstance(want, str):
         return obs == want, want
     if want is None and ev[0] == "lib":
-        return True, None       # no closed form: judged against the same call in a fresh interpreter
+        return not obs.startswith("MISMATCH"), "the two results of the event to agree"
     try:
         got = float(obs)
     except ValueError:
@@ -321,6 +350,9 @@ def canaries():
         ("div_at_zero", lambda: g(lambda x: np.sum(np.sqrt(x)))(onp.array([0.0, 1.0, 4.0])), [math.inf, 0.5, 0.25]),
         ("arr3_mixed", lambda: g(lambda x: np.sum(np.sin(x)) + x[0] * x[1])(a3 * 0.1), [math.cos(.1) + .2, math.cos(.2) + .1, math.cos(.3)]),
         ("arr0d", lambda: g(lambda x: np.sin(x) * x[()])(onp.array(0.7)), math.cos(.7) * .7 + math.sin(.7)),
+        ("flatten", lambda: list(Lb["flatten"]((1.5, {"b": a2, "a": [2.5]}))[0]) + list(g(lambda v: np.sum(Lb["flatten"]((v, v * v))[0] ** 2))(a2)),
+         [1.5, 2.5, 0.1, 0.2, 2 * 0.1 + 4 * 0.1 ** 3, 2 * 0.2 + 4 * 0.2 ** 3]),
+        ("det", lambda: g(lambda A_: np.linalg.det(A_))(onp.array([[2.0, 0.5], [0.25, 1.0]])), [[1.0, -0.25], [-0.5, 2.0]]),
         ("eigh", lambda: g(lambda A: np.sum(np.linalg.eigh(A)[1][:, 0] ** 2 * onp.array([1.0, 3.0])))(onp.array([[2.0, 0.5], [0.5, 1.0]])), None),
     ]
 
@@ -502,6 +534,26 @@ def _leaf_results(spec_name, limit, order, only=None):
                 case = cases[i]
                 f = case.fn()
                 vals = [case.ops[n] for n in case.ops]
+                if order == "inplace":
+                    # the SAME array objects are handed in twice, their contents changed in place in between (x += step, the
+                    # usual optimisation loop); the second result must equal the one obtained with fresh copies of the new contents
+                    def once(args):
+                        try:
+                            vjp, val = A["autograd"].make_vjp(lambda *a: f(A["anp"], *a), 0)(*args)
+                            g = vjp(A["vspace"](val).ones())
+                            return hashlib.sha1(realify(g).tobytes() + realify(val).tobytes()).hexdigest()[:16]
+                        except Exception as e:
+                            return "EXC:" + type(e).__name__
+                    objs = [v.copy() if isinstance(v, onp.ndarray) else v for v in vals]
+                    once(objs)
+                    for o in objs:
+                        if isinstance(o, onp.ndarray) and o.dtype.kind in "fc" and o.size:
+                            o *= 0.97
+                            o += 0.011
+                    second = once(objs)
+                    fresh = once([v.copy() if isinstance(v, onp.ndarray) else v for v in objs])
+                    res[i] = "same" if second == fresh else "differs:%s/%s" % (second, fresh)
+                    continue
                 try:
                     vjp, val = A["autograd"].make_vjp(lambda *a: f(A["anp"], *a), 0)(*vals)
                     g = vjp(A["vspace"](val).ones())
@@ -533,6 +585,11 @@ def catalog_history_job(args):
     for i in sorted(set(singles) | set(suspects[:20])):
         alone[i] = isolated(_leaf_results, spec_name, limit, "forward", [i]).get(i)
     bad = []
+    inpl = isolated(_leaf_results, spec_name, limit, "inplace")
+    for i, r in inpl.items():
+        if r != "same":
+            got, want = r.split(":", 1)[1].split("/")
+            bad.append(("after-an-earlier-call-with-the-same-array-objects-(contents-changed-in-place)", i, _describe(spec_name, limit, i), got, want))
     for i, r in alone.items():
         for name, other in (("after-earlier-calls", seq), ("after-later-calls", rev)):
             if other.get(i) != r:
